@@ -171,8 +171,8 @@ def amen_divide(a, b, nswp = 22, x0 = None, eps = 1e-10,rmax = 100, max_full = 5
             
             # update phis (einsum)
             # print(x_cores[k].shape,A.cores[k].shape,x_cores[k].shape)
-            Phis[k] = compute_phi_bck_A(Phis[k+1],x_cores[k],a.cores[k],x_cores[k])
-            Phis_b[k] = compute_phi_bck_rhs(Phis_b[k+1],b.cores[k],x_cores[k])
+            Phis[k] = compute_phi_bck_A(Phis[k+1],tn.conj(x_cores[k]),a.cores[k],x_cores[k])
+            Phis_b[k] = compute_phi_bck_rhs(Phis_b[k+1],b.cores[k],tn.conj(x_cores[k]))
             
             # ... and norms 
             norm = tn.linalg.norm(Phis[k])
@@ -189,8 +189,8 @@ def amen_divide(a, b, nswp = 22, x0 = None, eps = 1e-10,rmax = 100, max_full = 5
 
             # compute phis_z
             if not last:
-                Phiz[k] = compute_phi_bck_A(Phiz[k+1], z_cores[k], a.cores[k], x_cores[k]) / normA[k-1]
-                Phiz_b[k] = compute_phi_bck_rhs(Phiz_b[k+1], b.cores[k], z_cores[k]) / normb[k-1]
+                Phiz[k] = compute_phi_bck_A(Phiz[k+1], tn.conj(z_cores[k]), a.cores[k], x_cores[k]) / normA[k-1]
+                Phiz_b[k] = compute_phi_bck_rhs(Phiz_b[k+1], b.cores[k], tn.conj(z_cores[k])) / normb[k-1]
 
 
         # start loop
@@ -343,8 +343,8 @@ def amen_divide(a, b, nswp = 22, x0 = None, eps = 1e-10,rmax = 100, max_full = 5
                 rx[k+1] = r
 
                 # next phis with norm correction
-                Phis[k+1] = compute_phi_fwd_A(Phis[k], x_cores[k], a.cores[k], x_cores[k]) 
-                Phis_b[k+1] = compute_phi_fwd_rhs(Phis_b[k], b.cores[k],x_cores[k])
+                Phis[k+1] = compute_phi_fwd_A(Phis[k], tn.conj(x_cores[k]), a.cores[k], x_cores[k]) 
+                Phis_b[k+1] = compute_phi_fwd_rhs(Phis_b[k], b.cores[k],tn.conj(x_cores[k]))
                 
                 # ... and norms 
                 norm = tn.linalg.norm(Phis[k+1])
@@ -362,8 +362,8 @@ def amen_divide(a, b, nswp = 22, x0 = None, eps = 1e-10,rmax = 100, max_full = 5
 
                 # next phiz
                 if not last:
-                    Phiz[k+1] = compute_phi_fwd_A(Phiz[k], z_cores[k], a.cores[k], x_cores[k]) / normA[k]
-                    Phiz_b[k+1] = compute_phi_fwd_rhs(Phiz_b[k], b.cores[k],z_cores[k]) / normb[k]
+                    Phiz[k+1] = compute_phi_fwd_A(Phiz[k], tn.conj(z_cores[k]), a.cores[k], x_cores[k]) / normA[k]
+                    Phiz_b[k+1] = compute_phi_fwd_rhs(Phiz_b[k], b.cores[k],tn.conj(z_cores[k])) / normb[k]
             else:
                 x_cores[k] = tn.reshape(u@tn.diag(s[:r]) @ v[:r,:].t(),[rx[k],N[k],rx[k+1]])
 
